@@ -178,6 +178,17 @@ CLAIMED["C17"] = dict(
     note=TRUST + "; scipy.stats.chi2.isf tabulates the bound per occurring dof (statistics within 1e-7 of it are undecided); numpy/scipy linear algebra builds the inputs",
     engine="detectors")
 
+CLAIMED["C18"] = dict(
+    text=("MMAE.tla is an explicit state machine of the SMM / GPB1 update life-cycle (update, zero-mass reset, renormalise, prune, "
+          "converge, gate, close) with integer probability masses and exact rational moment matching; TLC checks SumToOne, NonNegative, "
+          "AtLeastOneModel, BayesRule, ModeMixValid, MixtureMoments, HandBackIsSurvivor. Exhaustive behaviours for 2-5 models and "
+          "-simulate samples up to 30 models are replayed into real StaticMultipleModel / GeneralizedPseudoBayesian1 objects over real "
+          "UKF models fed prepared innovations and compared with the spec's exact values at 1e-9; update records of real objects over "
+          "6-D filters on random observation sequences are validated by TLC (TraceMMAE.tla) after integer projection."),
+    ref="5 C18", technique="TLA+ spec MMAE.tla + TLC exhaustive and -simulate; spec->impl replay and impl->spec trace validation",
+    note=TRUST + "; the UKF update and measurement code feeding the innovations; the harness's likelihood recomputation and projection intervals; excluded: initialize(), the chi-square gate (environment input), exact threshold ties",
+    engine="mmae")
+
 NOT_APPLICABLE = {
     "C13": ("an explicit TLA+ specification cannot evaluate a degree-20 spherical-harmonic gradient or analytic ephemerides; "
             "the property IS equality with an independent numerical reference, which would be differential testing, a "
